@@ -282,6 +282,60 @@ Section Sys.
     | GGcEnd => gc_end_ci x
     end.
 
+  (** *** the eviction phase one candidate at a time (for interleavings inside a run)
+
+      [collectGarbage] holds no lock between two [DelFile] calls: other operations can run
+      after candidate selection, before the DelFile of any candidate and after it, until the
+      final section commits the batch.  [gcprog] is what the run carries from one candidate to
+      the next: the batch, the count, the recycled items.  One step = one [DelFile(addr,
+      closure)] call, taken as atomic (the dirty test is INSIDE the closure, under batchMu,
+      together with the pyramid loop). *)
+  Record gcprog := { p_batch : list write; p_cnt : N; p_rec : list (gckey * N) }.
+  Definition prog0 : gcprog := {| p_batch := []; p_cnt := 0; p_rec := [] |}.
+
+  (** [root]: the address DelFile was called with (must be the next candidate) *)
+  Definition gc_step_ci (root : addr) (x : sys) (p : gcprog) : sys * gcprog * gobs :=
+    match s_gcrun (ls x) with
+    | None => (x, p, GBad)
+    | Some ctx =>
+        match g_cands ctx with
+        | [] => (x, p, GBad)
+        | (k, g) :: rest =>
+            if negb (bytes_eqb root (snd k)) then (x, p, GBad)
+            else
+              let '(s1, c1, b1, n1, rec1) := gc_evict_ci (ls x) (ci x) (p_batch p) (p_cnt p) [(k, g)] (p_rec p) in
+              ({| ls := set_gcrun s1 (Some {| g_cands := rest; g_target := g_target ctx |}) (s_dirty s1); ci := c1 |},
+               {| p_batch := b1; p_cnt := n1; p_rec := rec1 |}, GDone)
+        end
+    end.
+
+  (** the rest of the run from a progress: remaining candidates, then the final section *)
+  Definition gc_end_from (x : sys) (p : gcprog) : sys * gobs :=
+    match s_gcrun (ls x) with
+    | None => (x, GBad)
+    | Some ctx =>
+        let '(s1, c1, b1, n, recycled) := gc_evict_ci (ls x) (ci x) (p_batch p) (p_cnt p) (g_cands ctx) (p_rec p) in
+        let g := s_gcsize s1 in
+        let b2 := b1 ++ flat_map (fun kc => [WDataDel (snd (fst kc)); WAccessDel (snd (fst kc)); WGcDel (fst kc)]) recycled in
+        let n1 := wadd n (N.of_nat (length recycled)) in
+        let n2 := match recycled with [] => g | _ => n1 end in
+        let cur := if n2 <=? g then g - n2 else 0 in
+        let done := negb (g_target ctx <? cur) in
+        let s2 := commit s1 (b2 ++ [WGcSize cur]) in
+        ({| ls := set_gcrun s2 None []; ci := c1 |}, GO (RGcEnd n2 done))
+    end.
+
+  Inductive gop2 :=
+  | H1 (o : gop)
+  | HGcStep (root : addr).
+
+  Definition gstep2 (y : sys * gcprog) (o : gop2) : sys * gcprog * gobs :=
+    match o with
+    | H1 GGcEnd => let '(x', r) := gc_end_from (fst y) (snd y) in (x', prog0, r)
+    | H1 o' => let '(x', r) := gstep (fst y) o' in (x', snd y, r)
+    | HGcStep root => gc_step_ci root (fst y) (snd y)
+    end.
+
   Fixpoint grun (x : sys) (h : list gop) : sys * list gobs :=
     match h with
     | [] => (x, [])
